@@ -27,12 +27,17 @@ def main(tier, seed):
     ng = 40 if tier == "quick" else 300
     progs = [(f"gen/{i}", p.text()) for i, p in enumerate(progen.generate(rng, ng))]
     progs += [(n, s) for n, s in impl.repo_programs() if "constexpr" not in n and "error" not in n]
+    from .. import idioms
+    progs += [(n, p.text()) for n, p in idioms.programs(rng)]
     allv = impl.all_vectors()
     pw = impl.pairwise_vectors()
     beh = impl.behaviour_vectors()
     jobs, meta = [], []
     for i, (name, src) in enumerate(progs):
-        if tier == "quick":
+        if name.startswith("idiom/"):
+            # directed shapes: all eight combinations of inlining x calling convention x tail calls
+            vs = [v for v in beh if not v["remove_labels"] and not v["compact"]] if tier == "quick" else beh
+        elif tier == "quick":
             vs = [pw[(i + k) % len(pw)] for k in range(3)] + [beh[(7 * i + 3) % len(beh)]]
         elif i < 20:
             vs = allv
